@@ -587,10 +587,6 @@ theorem carrier_paths :
     (plainNames.filter fun n => pathOf n ⟨.rgba, .f32⟩ != .uni) =
       ["R32_FLOAT", "R32G32B32_FLOAT", "R32G32B32A32_FLOAT"] := by decide +kernel
 
-/-- a concrete instance of the parameters (only used to evaluate examples) -/
-def extZero : Ext := ⟨fun _ => 0, fun _ => 0, fun _ => 0, fun _ => 0, fun _ _ _ => (0, 0, 0), fun _ _ _ => (0, 0, 0),
-  fun _ _ _ => (0, 0, 0), fun _ => false⟩
-
 /-- non-vacuity: the compared values are `some` bytes, on each kind of path — SNORM8 through `color_convert!`
 (U8 carrier), through `universal!` (U16, F32 carriers); B8G8R8X8 swap + 0xFF; 16-bit `copy`; Alpha into RGB -/
 example : pixelBytes extZero "R8G8B8A8_SNORM" .u8 (.gray 200) = some [72, 72, 72, 127] ∧
